@@ -144,6 +144,14 @@ MODELS = [
         M(k=Q(S('red'), B('true')), j=Q(S('green')))]),
     ('nest_sav', List[List[Z.Sav]], [Z.Sav, Z.Sub], [
         Q(Q(M(a=I(1)), M(aa=I(2), b=S('y'))))]),
+    # ---- underscore parameters without a savorize hook (a dashed spelling
+    # of the key is in the key palette), auto-recognised and permissive
+    ('under', Z.Under, [Z.Under], [M(a=I(1), b_c=I(2), l_s=Q(I(3)))]),
+    ('under_perm', Z.UnderPerm, [Z.UnderPerm], [M(a=I(1), b_c=I(2))]),
+    # ---- a class that is abstract because it lists ABC (not first)
+    ('figs', Z.Draw, [Z.Draw, Z.Fig, Z.Poly, Z.Tri], [
+        M(figs=Q(M(name=S('f')), M(name=S('t'), sides=I(3), kind=S('k'))),
+          main=M(name=S('m'), sides=I(4), kind=S('j')))]),
     # ---- C17: dropping one key makes a value match two sibling classes
     ('ambig', Z.AmbHolder, [Z.AmbHolder, Z.AmbB, Z.AmbS1, Z.AmbS2], [
         M(b=M(a=I(1), x=I(2)), n=I(3), bs=Q(M(a=I(4), y=I(5))))]),
@@ -151,7 +159,7 @@ MODELS = [
 CORE = {m[0] for m in MODELS if not m[0].startswith('trap_')
         and m[0] not in ('order', 'typed', 'req4', 'firm', 'extra_default',
                          'job', 'nest_path', 'nest_enum', 'nest_sav', 'ambig')}
-GROUP_C02 = (CORE - {'perm', 'versioned'}) | {'order', 'firm', 'extra_default',
+GROUP_C02 = (CORE - {'perm', 'versioned', 'under_perm'}) | {'order', 'firm', 'extra_default',
                                             'job'}
 GROUP_C08 = CORE | {'order', 'job', 'extra_default'}
 GROUP_C04 = {'trap_loose', 'trap_any', 'trap_dict', 'trap_typed', 'loose',
